@@ -26,6 +26,7 @@ type c14Op struct {
 	HasAlph   bool
 	W, H      int
 	NilOpts   bool
+	Repeat    int // the same AddFrame call is made Repeat more times (long animations: 1000-chunk and 10000-frame limits)
 	Duration  int
 	OffX      int
 	OffY      int
@@ -104,6 +105,10 @@ func genC14(t *rapid.T) *c14Case {
 				op.DisposeBG = rapid.Bool().Draw(t, "disposeBG")
 			}
 			frames++
+			if len(e.Bitstream) < 120 && rapid.IntRange(0, 119).Draw(t, "long") == 57 {
+				op.Repeat = rapid.SampledFrom([]int{200, 900, 994, 995, 996, 997, 998, 999, 1000, 1001, 1002, 2500, 9997, 9998, 9999, 10000, 10001}).Draw(t, "repeat")
+				frames += op.Repeat
+			}
 		case "setdispose":
 			op.Index = rapid.IntRange(-1, frames).Draw(t, "idx")
 			op.IVal = rapid.IntRange(0, 1).Draw(t, "mode")
@@ -198,15 +203,25 @@ func checkC14(c *c14Case, o *core.Obs) error {
 					fo.DisposeMode = mux.DisposeBackground
 				}
 			}
-			if err := m.AddFrame(data, fo); err != nil {
-				return fmt.Errorf("AddFrame rejected a real bitstream: %v", err)
+			for rep := 0; rep <= op.Repeat; rep++ {
+				if err := m.AddFrame(data, fo); err != nil {
+					if len(frames) >= container.MaxFrames {
+						// the documented frame limit: rejected with an error, the frame is not part of the state
+						o.Label("frame-limit-reached")
+						continue
+					}
+					return fmt.Errorf("AddFrame rejected a real bitstream (frame %d): %v", len(frames), err)
+				}
+				if len(frames) >= container.MaxFrames {
+					return fmt.Errorf("AddFrame accepted frame number %d, beyond the package's MaxFrames", len(frames)+1)
+				}
+				f := c14Frame{op: *op, dur: clampDur(op.Duration), dispose: op.DisposeBG}
+				if op.NilOpts {
+					f.dur, f.dispose = 0, false
+					f.op.OffX, f.op.OffY, f.op.BlendNone = 0, 0, false
+				}
+				frames = append(frames, f)
 			}
-			f := c14Frame{op: *op, dur: clampDur(op.Duration), dispose: op.DisposeBG}
-			if op.NilOpts {
-				f.dur, f.dispose = 0, false
-				f.op.OffX, f.op.OffY, f.op.BlendNone = 0, 0, false
-			}
-			frames = append(frames, f)
 		case "setdispose":
 			m.SetFrameDisposeMode(op.Index, mux.DisposeMode(op.IVal))
 			if op.Index >= 0 && op.Index < len(frames) {
@@ -292,7 +307,20 @@ func checkC14(c *c14Case, o *core.Obs) error {
 	err := m.Assemble(&buf)
 	o.Labelf("animated=%v frames=%d", animated, bucket(len(frames)))
 	o.Labelf("assemble_ok=%v", err == nil)
-	sig := fmt.Sprintf("a%v n%d meta%v alph%v|", animated, len(frames), anyMeta, anyAlph)
+	nsig := len(frames)
+	if nsig > 20 {
+		cls := "21-998"
+		switch {
+		case len(frames) >= 10000:
+			cls, nsig = "10000", 10000
+		case len(frames) >= 999:
+			cls, nsig = "999-9999", 999
+		default:
+			nsig = 21
+		}
+		o.Label("long-animation frames " + cls)
+	}
+	sig := fmt.Sprintf("a%v n%d meta%v alph%v|", animated, nsig, anyMeta, anyAlph)
 	for k := range used {
 		_ = k
 	}
@@ -302,7 +330,10 @@ func checkC14(c *c14Case, o *core.Obs) error {
 		}
 	}
 	par := ""
-	for _, f := range frames {
+	for i, f := range frames {
+		if i >= 16 {
+			break
+		}
 		par += fmt.Sprintf("%d%d", len(f.op.Bitstream)&1, len(f.op.Alph)&1)
 	}
 	o.SampleJSON = map[string]any{"ops": len(c.Ops), "frames": len(frames), "animated": animated, "canvas": [2]int{cw, ch}, "fits": fits, "err": fmt.Sprint(err)}
